@@ -14,8 +14,8 @@ def showResult (st : Interp.State) (r : Except SErr (Option Value)) : String :=
 def initState (mode : String) : Interp.State :=
   match mode with
   | "std" => Interp.withStdlib evalFuel false
-  | "std+host" => Interp.withStdlib evalFuel true
-  | "nostd+host" => Interp.default_ true
+  | "std+host" | "std+host+sum" => Interp.withStdlib evalFuel true
+  | "nostd+host" | "nostd+host+sum" => Interp.default_ true
   | _ => Interp.default_ false
 
 /-- run the submissions one after another on one interpreter -/
@@ -36,7 +36,11 @@ def progx (fields : List String) : List String :=
   match fields with
   | mode :: forms =>
     let (rs, st) := runForms (initState mode) forms
-    rs ++ ["T " ++ " ".intercalate st.store.ticks.reverse,
+    let ticks := st.store.ticks.reverse
+    let tline := if mode.endsWith "+sum" then
+        "T n=" ++ toString ticks.length ++ " first=" ++ ticks.head?.getD "" ++ " last=" ++ ticks.getLast?.getD ""
+      else "T " ++ " ".intercalate ticks
+    rs ++ [tline,
            "O " ++ esc (String.join st.store.out.reverse),
            "D " ++ toString st.store.maxDepth]
   | [] => ["X bad-fields"]
